@@ -14,7 +14,7 @@ IsEvent(e) == l <= Len(TraceLog) /\ E.ev = e /\ l' = l + 1
 Reset == /\ IsEvent("Reset")
          /\ reg' = {} /\ ptr' = [a \in Agents |-> None] /\ links' = [a \in Agents |-> {}]
          /\ dup' = FALSE /\ db' = {} /\ active' = [a \in Agents |-> FALSE]
-         /\ last' = [op |-> "none", a |-> None, c |-> None, done |-> TRUE] /\ hist' = <<>>
+         /\ last' = [op |-> "none", a |-> None, c |-> None, done |-> TRUE, kept |-> TRUE] /\ hist' = <<>>
 
 Logged == /\ reg' = ToSet(E.st.reg)
           /\ ptr' = [a \in Agents |-> E.st.ptr[a]]
@@ -27,14 +27,19 @@ SRegister   == IsEvent("Register")   /\ Register(E.a)        /\ Logged /\ E.res.
 SConnect    == IsEvent("Connect")    /\ Connect(E.a, E.c)    /\ Logged /\ E.res.done
 SDisconnect == IsEvent("Disconnect") /\ Disconnect(E.a, E.c) /\ Logged /\ E.res.done
 SDied       == IsEvent("Died")       /\ Died(E.a, E.k)       /\ Logged /\ E.res.done
+SRestart    == IsEvent("Restart")    /\ Restart             /\ Logged /\ E.res.done
 
 MonStep == /\ l <= Len(TraceLog) /\ E.ev # "Reset" /\ l' = l + 1
            /\ Logged
-           /\ last' = [op |-> E.ev, a |-> E.a, c |-> E.c, done |-> E.res.done]
+           /\ last' = [op |-> E.ev, a |-> E.a, c |-> E.c, done |-> E.res.done,
+                       kept |-> (E.ev = "Restart" =>          \* unprimed: as logged before the restart, primed: after
+                                   /\ reg' = {a \in reg : active[a]}
+                                   /\ \A p \in reg', c \in reg' : (c \in links'[p]) <=> (c \in links[p])
+                                   /\ \A c \in reg' : ptr'[c] = (IF ptr[c] \in reg' THEN ptr[c] ELSE None))]
            /\ UNCHANGED hist
 
 TraceNext == \/ Reset
-             \/ (Strict /\ (SRegister \/ SConnect \/ SDisconnect \/ SDied))
+             \/ (Strict /\ (SRegister \/ SConnect \/ SDisconnect \/ SDied \/ SRestart))
              \/ (~Strict /\ MonStep)
 TraceSpec == TraceInit /\ [][TraceNext]_tvars
 TraceAccepted == TLCGet("stats").diameter - 1 = Len(TraceLog)
